@@ -17,6 +17,12 @@ T = {
             "explicit-state enumeration of the bounded instance lattice, reference-model comparison per state", "4/C02"),
     "C03": ("model_checking", "Wire-first exploration: every wire value within k deviations, including explicit-default and unknown-tag patterns at every flexible struct, is encoded by the reference encoder and decoded by kio; values and consumed length compared.", KREF,
             "explicit-state enumeration of bounded wire values x tagged-section patterns, reference-model comparison", "4/C03"),
+    "C04": ("exploration", "All 666 modules / 1629 classes / 5094 fields / error codes / both index maps of the shipped package are compared with the output of the CURRENT generator on the 186 pinned definitions (scratch tree), with the pinned description of the baseline tree, and the tree must still reconstruct to the pinned definitions; thorough: regeneration with each definition removed.",
+            "Trusted: pins/definitions-3.9.0 (reconstructed from the baseline tree because the upstream JSON files cannot be fetched; the real generator reproduces the baseline tree from them exactly), pins/schema-3.9.0.describe.json.gz, pins/kafka-3.9.0-apis.json. Fidelity to the true upstream files beyond that is not claimed.",
+            "exhaustive comparison over the finite configuration space: generator run on pinned programs vs shipped tree", "4/C04"),
+    "C16": ("exploration", "Every sentence of a bounded grammar of message definitions (quick: fixed sub-grammar of ~1200; thorough: ~31000) and the 186 real definitions are pushed through the CURRENT generator in scratch trees; for every declared version the generated classes are compared with an independent reading of the definition structurally and on the wire (all k<=1 values: KRef(definition) == kio(generated class)), all-defaults instance, generated index.",
+            "Trusted: defspec (kverif/defspec.py) as the independent reading of the definition format, KRef; accepted documented kio conventions (uuid always Optional, tagged+ignorable+no-default fields Optional, ...Ms renames). The supported subset is decided by the generator raising; the set of rejected sentences is pinned. Tagged nullable structs are outside the grammar (wire form not anchored).",
+            "bounded-exhaustive enumeration of programs (definition grammar) through the real generator, reference-model comparison", "4/C16"),
     "C05": ("model_checking", "Wire-first exploration of canonical encodings over lossy-prone alphabets: decode then encode must reproduce the bytes; decode/encode idempotent on every accepted (also non-canonical) input.", KREF,
             "explicit-state enumeration of bounded wire values, byte-identity oracle", "4/C05"),
     "C06": ("fault_enumeration", "For every class and every instance within k deviations, every strict prefix of the encoding is fed to the real decoder on two source kinds; the outcome must be exactly BufferUnderflow within a deterministic step budget.",
